@@ -75,6 +75,84 @@ Theorem statements_in_order :
 Proof. exact (instance_block infix_entries infix_lbp documented_table). Qed.
 Print Assumptions statements_in_order.
 
+(* ---- constructs beyond the binary / prefix / index core ---- *)
+Notation nf := (fun _ : tok => false).
+Notation dclassify := (classify tok Doc.is_operand Doc.is_prefix Doc.is_binop Doc.is_postfix).
+Notation dsplit := (split_alt tok Doc.prec Doc.rassoc).
+Notation dtake_unit := (take_unit tok Doc.is_operand Doc.is_prefix Doc.is_postfix).
+Notation T_E := infix_entries.
+Notation T_K := infix_lbp.
+
+(* assignment chains nest to the right whatever their length (also mixed = := += -=):
+   the oracle tree of  u0 = u1 = ... is (= u0 (= u1 ...))  (and by pratt_precedence_correct so is
+   the parser's) *)
+Theorem assign_chain_right_assoc :
+  forall u0 o u1 rest,
+    (forall y, In y (map fst rest) -> Doc.prec y = Doc.prec o /\ Doc.rassoc y = true) ->
+    dsplit (u0, (o, u1) :: rest) = Bin o (unit_tree tok u0) (dsplit (u1, rest)).
+Proof. exact (right_chain tok Doc.prec Doc.rassoc). Qed.
+Print Assumptions assign_chain_right_assoc.
+
+(* E ++ / E -- : for every documented expression E of any length without a top-level assignment
+   operator, the postfix operator applies to the whole of E ... *)
+Theorem postfix_assign_parse :
+  forall eof ts a q,
+    dclassify ts = Some a -> Doc.no_assign a = true -> Doc.is_lowpost q = true ->
+    m_expr T_E T_K nf eof (fuel_for tok (ts ++ [q])) 0 (ts ++ [q])%list = ROk (Post q (dsplit a), []).
+Proof. exact (inst_postfix T_E T_K documented_table). Qed.
+Print Assumptions postfix_assign_parse.
+
+(* ... and inside the right operand of an assignment:  lhs = E ++  is (set lhs (++ E)) *)
+Theorem assign_postfix_parse :
+  forall eof us u asg ts a q,
+    dtake_unit us = Some (u, []) -> Doc.is_binop asg = true -> Doc.prec asg <= Doc.assign_level ->
+    dclassify ts = Some a -> Doc.no_assign a = true -> Doc.is_lowpost q = true ->
+    m_expr T_E T_K nf eof (fuel_for tok (us ++ asg :: ts ++ [q])) 0 (us ++ asg :: ts ++ [q])%list
+    = ROk (Bin asg (unit_tree tok u) (Post q (dsplit a)), []).
+Proof. exact (inst_assign_postfix T_E T_K documented_table). Qed.
+Print Assumptions assign_postfix_parse.
+
+(* if / else, for ALL nestings, compositionally.  `Parses eof P r ts x`: the model of
+   Expression(r), started in front of ts followed by any statement boundary satisfying P,
+   returns x and stops at the boundary (with the runner's fuel). *)
+Definition ParsesG := Parses T_E T_K.
+Theorem doc_parses :
+  forall eof P r ts a, dclassify ts = Some a -> 0 <= r <= if_cond_level T_E ->
+    ParsesG eof P r ts (dsplit a).
+Proof. exact (inst_doc_parses T_E T_K documented_table). Qed.
+Print Assumptions doc_parses.
+
+Theorem if_else_parse :
+  forall eof P C c T t X x rbp, 0 <= rbp ->
+    ParsesG eof AnyTail (if_cond_level T_E) C c -> ParsesG eof AnyTail 0 T t -> ParsesG eof P 0 X x ->
+    starts_stmt T_E T_K T = true ->
+    ParsesG eof P rbp (Doc.if_tok :: C ++ T ++ Doc.else_tok :: X)%list
+            (Cond Doc.if_tok c t (Some (Doc.else_tok, x))).
+Proof. exact (inst_if_else T_E T_K documented_table). Qed.
+Print Assumptions if_else_parse.
+
+Theorem if_noelse_parse :
+  forall eof C c T t rbp, 0 <= rbp ->
+    ParsesG eof AnyTail (if_cond_level T_E) C c -> ParsesG eof (NoElse eof) 0 T t ->
+    starts_stmt T_E T_K T = true ->
+    ParsesG eof (NoElse eof) rbp (Doc.if_tok :: C ++ T)%list (Cond Doc.if_tok c t None).
+Proof. exact (inst_if_noelse T_E T_K documented_table). Qed.
+Print Assumptions if_noelse_parse.
+
+(* x = if a b else c *)
+Theorem binop_then_parse :
+  forall eof P us u o Y y,
+    dtake_unit us = Some (u, []) -> Doc.is_binop o = true -> (forall r, 0 <= r -> ParsesG eof P r Y y) ->
+    ParsesG eof P 0 (us ++ o :: Y)%list (Bin o (unit_tree tok u) y).
+Proof. exact (inst_binop_then T_E T_K documented_table). Qed.
+Print Assumptions binop_then_parse.
+
+Theorem parses_is_a_run :
+  forall eof P r ts x, ParsesG eof P r ts x -> P [] ->
+    m_expr T_E T_K nf eof (fuel_for tok ts) r ts = ROk (x, []).
+Proof. exact (Parses_run T_E T_K). Qed.
+Print Assumptions parses_is_a_run.
+
 (* non-vacuity *)
 Definition s (n : string) : tok := TSym n false.
 Example ex_precedence :
@@ -106,3 +184,33 @@ Example ex_stray_semicolons :
   /\ m_parse_block infix_entries infix_lbp (fun _ => false) [TSemi; s "a"; TSemi; TSemi; TArr 7; TSemi]
   = ROk [Leaf (s "a"); Leaf (TArr 7)].
 Proof. vm_compute. split; reflexivity. Qed.
+
+(* an else-if chain, derived compositionally from the theorems above (not by computation) *)
+Example ex_else_if_chain :
+  forall eof,
+  m_expr T_E T_K nf eof 40 0
+    [s "if"; s "a"; s "<"; s "b"; TPair 1; s "else"; s "if"; s "c"; TPair 2; s "else"; s "d"; s "+"; TInt 1]
+  = ROk (Cond (s "if") (Bin (s "<") (Leaf (s "a")) (Leaf (s "b"))) (Leaf (TPair 1))
+           (Some (s "else", Cond (s "if") (Leaf (s "c")) (Leaf (TPair 2))
+                    (Some (s "else", Bin (s "+") (Leaf (s "d")) (Leaf (TInt 1)))))), []).
+Proof.
+  intros eof.
+  assert (H : ParsesG eof AnyTail 0
+     ([s "if"] ++ [s "a"; s "<"; s "b"] ++ [TPair 1] ++ s "else" :: ([s "if"] ++ [s "c"] ++ [TPair 2] ++ s "else" :: [s "d"; s "+"; TInt 1]))%list
+     (Cond (s "if") (Bin (s "<") (Leaf (s "a")) (Leaf (s "b"))) (Leaf (TPair 1))
+           (Some (s "else", Cond (s "if") (Leaf (s "c")) (Leaf (TPair 2))
+                    (Some (s "else", Bin (s "+") (Leaf (s "d")) (Leaf (TInt 1)))))))).
+  { apply (if_else_parse eof AnyTail [s "a"; s "<"; s "b"] _ [TPair 1] _ _ _ 0); try reflexivity; try lia.
+    - apply (doc_parses eof AnyTail _ [s "a"; s "<"; s "b"]); [vm_compute; reflexivity | vm_compute; split; discriminate].
+    - apply (doc_parses eof AnyTail _ [TPair 1]); [vm_compute; reflexivity | vm_compute; split; discriminate].
+    - apply (if_else_parse eof AnyTail [s "c"] _ [TPair 2] _ [s "d"; s "+"; TInt 1] _ 0); try reflexivity; try lia.
+      + apply (doc_parses eof AnyTail _ [s "c"]); [vm_compute; reflexivity | vm_compute; split; discriminate].
+      + apply (doc_parses eof AnyTail _ [TPair 2]); [vm_compute; reflexivity | vm_compute; split; discriminate].
+      + apply (doc_parses eof AnyTail _ [s "d"; s "+"; TInt 1]); [vm_compute; reflexivity | vm_compute; split; discriminate]. }
+  apply (parses_is_a_run eof AnyTail 0 _ _ H). exact I.
+Qed.
+Example ex_postfix_forms :
+  m_parse_block T_E T_K nf [s "x"; s "="; s "a"; s "+"; s "b"; s "++"; TSemi; s "i"; s "++"]
+  = ROk [Bin (s "=") (Leaf (s "x")) (Post (s "++") (Bin (s "+") (Leaf (s "a")) (Leaf (s "b"))));
+         Post (s "++") (Leaf (s "i"))].
+Proof. vm_compute. reflexivity. Qed.
